@@ -11,6 +11,16 @@
    error of the Go runtime such as "concurrent map writes", a panic in a goroutine of the service),
    this is the observed outcome of the scenario ([c_crashed]): no request of it has returned.
 
+   A forwarded registration (KFwd) or a registration round (KReg) may be "gated" too: the harness's relay then
+   sits on the POST of its registrations (if the request has any to hand over) until released.  Such a request
+   is held OUTSIDE the configuration lock (step MRelay of its program): the harness's settling does not accept
+   that anything waits for it, so a refresh or a request that does not return while only relay-held requests
+   are outstanding is a settle that ran into the watchdog ([c_timeouts]), which [P_b] forbids.
+
+   Builder bid requests may ask for the same bid repeatedly (harness input field "key"); the generators use a
+   key only while no request with it can have obtained a bid, so the answers come from the configuration (the
+   bid cache is not modelled).
+
    A command may stand for a whole series of requests made one after the other by one goroutine for
    distinct validators with the same settings (harness input field "many"), and a group of commands may
    be issued without settling in between (field "nosettle": the requests overlap; the generators never
